@@ -152,6 +152,11 @@ mal = ["# unbalanced / stray delimiters", ] + [case("m", O, t) for t in [
     "\"\" 60 A 1.1.1.1\n", "\"a b\" 60 A 1.1.1.1\n", "a \"60\" \"IN\" \"A\" \"1.1.1.1\"\n", "a 60 TXT (a)(b)\n", "a 60 TXT ((a))\n", "a 60 TXT ( a ;c )\n b )\n",
     "a 60 TXT ( a\x01 )\n", "x" * 64 + " 60 A 1.1.1.1\n", ".".join(["a" * 63] * 4) + ". 60 A 1.1.1.1\n", "", "\n", " ", ";",
 ]]
+mal += ["# RecordSet::insert rules (as repaired by 4cf469c / 24305ec): same data with a new TTL replaces, identical record ignored,",
+        "# identical CNAME is no change, different CNAME replaces, second SOA refused"] + [case("m", O, t) for t in [
+    "a 60 A 1.1.1.1\na 70 A 1.1.1.1\n", "a 60 A 1.1.1.1\nA 60 A 1.1.1.1\n", "a 60 A 1.1.1.1\na 60 A 2.2.2.2\na 70 A 1.1.1.1\n",
+    "a 60 CNAME x\nA 60 CNAME X\n", "a 60 CNAME x\na 70 CNAME x\n", "a 60 CNAME x\na 60 CNAME y\n", "a 60 NS n\na 60 CH NS N\n",
+    "a 60 MX 1 m\na 60 MX 1 M\na 70 MX 1 m\n", "a 60 SOA a b 1 2 3 4 5\nA 60 SOA a b 2 2 3 4 5\n"]]
 mal += ["# no origin at all", "zone m - " + hx(b"a 60 A 1.1.1.1\n"), "zone m - " + hx(b"a. 60 A 1.1.1.1\n"), "zone m - " + hx(b"$ORIGIN x.\na 60 A 1.1.1.1\n"),
         "# non-ASCII (implementation only)", case("m", O, "é 60 A 1.1.1.1\n"), case("m", O, "a 60 TXT \"é\u00a0\u2028\"\n"), case("m", O, "a\u00a060 A 1.1.1.1\n"),
         case("m", O, "a 60 TXT \"\\½\"\n"), case("m", O, "a 60 TXT \"\\٣٣٣\"\n")]
